@@ -5,6 +5,7 @@ import sys
 from fractions import Fraction
 
 from harness import vlib
+from harness import fpheap
 from harness.fpgen import CLS, KINDS, attempt, dump_fp, gen_fp, make_fp
 from harness.dbgen import FingerprintDatabase, dump_db, gen_fpin, make_fpin, dump_fpin
 
@@ -22,6 +23,7 @@ def values(d):
     return {i: Fraction(v) for i, v in d["cnt"] if Fraction(v) != 0}
 
 
+@fpheap.with_heap_cases(("repr",), 40, 1500)
 class C17(vlib.Check):
     id = "C17"
     props_modules = ["E3fpVerif.Props.C17"]
